@@ -3,7 +3,7 @@ from facts import AnalysisBroken
 from model import (dstr, strip, fact_holds, mentions_field, mentions_call, mentions_var,
                    mentions_enum, const_value, walk)
 from props.scan_common import check_refresh_validations, check_outputs_statted, check_midbuild_targets_scheduled
-from rules import (absent_from, guarded, calls_to, field_writes, who_may_call, must_pass, dominated_by,
+from rules import (deep_resolve, absent_from, guarded, calls_to, field_writes, who_may_call, must_pass, dominated_by,
                    full_range, loops_over, every_iteration_passes, basename, error_discipline,
                    origins, reject_if, canon_before_intern, skip_conditions_exact, is_var,
                    is_field, is_enum)
@@ -12,6 +12,10 @@ from rules import (absent_from, guarded, calls_to, field_writes, who_may_call, m
 def var_named(prefix):
     return lambda a: isinstance(strip(a), dict) and strip(a).get('k') == 'var' and \
         strip(a)['n'].split('#')[0] == prefix
+
+
+def call_on_exact_var(method, var):
+    return call_on_var(method, var, False)
 
 
 def call_on_var(method, var=None, prefix=False):
@@ -134,17 +138,21 @@ def run(ctx):
     # X8: binding other than restat
     reject_if(ctx, 'C11.X', pe, str_cmp('key', 'restat'), False, 'X8 only the restat binding is allowed',
               'X8:binding-name')
-    # empty evaluated paths
+    # empty evaluated paths: every string that ParseEdge canonicalises (the output and each implicit input / output,
+    # whatever the variables are called and wherever the loop body lives) was tested for emptiness first
+    canon_vars = set()
     n_empty = 0
-    for bid, b in pe.blocks.items():
-        for i, s in enumerate(b['succ']):
-            ef = pe.edge_fact(bid, i)
-            if ef and ef[1] is True and call_on_var('empty', 'path', True)(ef[2]):
-                n_empty += 1
-    ctx.check('C11.X', n_empty >= 3, pe.name, 'X:empty-path-guards', pe.loc,
+    for e in pe.calls('CanonicalizePath'):
+        vs = [x['n'] for x in walk((e.get('args') or [None])[0]) if x.get('k') == 'var']
+        if not vs:
+            continue
+        canon_vars.add(vs[0])
+        if fact_holds(pe.facts_at(e), call_on_exact_var('empty', vs[0]), False):
+            n_empty += 1
+    ctx.check('C11.X', n_empty >= 3 and n_empty == len(list(pe.calls('CanonicalizePath'))), pe.name, 'X:empty-path-guards', pe.loc,
               'evaluated paths (output, implicit inputs, implicit outputs) are tested for emptiness '
               '(%d guards)' % n_empty)
-    reject_if(ctx, 'C11.X', pe, call_on_var('empty', 'path', True), True, 'empty path', 'X:empty-path',
+    reject_if(ctx, 'C11.X', pe, lambda a: any(call_on_exact_var('empty', v)(a) for v in canon_vars), True, 'empty path', 'X:empty-path',
               min_edges=3)
 
     # ---- X: rejections of the loader ---------------------------------------------------------------
@@ -181,21 +189,21 @@ def run(ctx):
     ctx.check('C11.P', len(ins) == 1 and basename(ins[0][0].get('name')).startswith('insert'), ue.name,
               'UpdateEdge:inputs-insert-count', ue.loc, 'exactly one insertion into inputs_')
     for e, kind in ins:
-        pos = e['args'][0] if e.get('args') else None
+        pos = deep_resolve(ue, e['args'][0]) if e.get('args') else None
         ok = 'Edge::order_only_deps_' in dstr(pos) and 'end()' in dstr(pos) and \
             any(x.get('op') == '-' or (x.get('k') == 'bin' and x['op'] == '-') for x in walk(pos))
         ctx.check('C11.P', ok, ue.name, 'UpdateEdge:inputs-insert-position', ue.where(e),
                   'discovered inputs are inserted at inputs_.end() - order_only_deps_ (position: %s)' % dstr(pos))
-        src = dstr(e['args'][1:]) if e.get('args') else ''
+        src = dstr(deep_resolve(ue, e['args'][1:])) if e.get('args') else ''
         ctx.check('C11.P', 'Dyndeps::implicit_inputs_' in src, ue.name, 'UpdateEdge:inputs-source',
                   ue.where(e), 'what is inserted is the whole implicit_inputs_ range')
     cnt = [e for f, e, kind, rhs in field_writes(prog, 'Edge::implicit_deps_', [ue])]
     ctx.check('C11.P', len(cnt) == 1 and cnt[0]['op'] == '+=' and
-              'Dyndeps::implicit_inputs_.size()' in dstr(cnt[0].get('r')), ue.name,
+              'Dyndeps::implicit_inputs_.size()' in dstr(deep_resolve(ue, cnt[0].get('r'))), ue.name,
               'UpdateEdge:implicit_deps_-update', ue.loc,
               'implicit_deps_ += implicit_inputs_.size() accompanies the insertion')
     for e, kind in outs:
-        pos = e['args'][0] if e.get('args') else None
+        pos = deep_resolve(ue, e['args'][0]) if e.get('args') else None
         ctx.check('C11.P', dstr(strip(pos)).endswith('Edge::outputs_.end()') or 'Edge::outputs_.end()' in dstr(pos),
                   ue.name, 'UpdateEdge:outputs-insert-position', ue.where(e),
                   'discovered outputs are appended at outputs_.end() (position: %s)' % dstr(pos))
